@@ -22,7 +22,7 @@ def run_cli(script, args, stdin_mode='open', data=b'', timeout=180, env=None, ha
         pre = lambda: os.close(0)
         kw['stdin'] = None
         kw['preexec_fn'] = pre
-    elif stdin_mode == 'pty':
+    elif stdin_mode in ('pty', 'pty_timed'):
         master, slave = pty.openpty()
         kw['stdin'] = slave
     else:
@@ -58,6 +58,17 @@ def run_cli(script, args, stdin_mode='open', data=b'', timeout=180, env=None, ha
                     p.stdin.close()
             except BrokenPipeError:
                 pass
+        if stdin_mode == 'pty_timed':
+            # a user typing on a real terminal: data = list of (delay_seconds, bytes) written to the pty master
+            def typist():
+                import time as _t
+                for delay, chunk in data:
+                    _t.sleep(delay)
+                    try:
+                        os.write(master, chunk)
+                    except OSError:
+                        return
+            threading.Thread(target=typist, daemon=True).start()
         if stdin_mode == 'timed':
             # data: list of (delay_seconds, bytes) written by a helper thread while the process runs; the pipe stays open afterwards
             def writer():
